@@ -81,6 +81,22 @@ Theorem C17_index_in_range : forall c r sh s p t, sreachable c r sh s ->
 Proof. intros c r sh s p t R. exact (proj2 (range_reachable c r sh s R) p t). Qed.
 Print Assumptions C17_index_in_range.
 
+(* a resize can leave the expiry timer of a dropped partition running; when the same index is created and acquired
+   again, that stale timer must not clear the new lease (repair D9: the timer only clears the lease it was started
+   for), while the lease's own timer does clear it *)
+Theorem C17_stale_timer_keeps_reacquired_partition : forall c s p e s' o,
+  sc_gen c = V2 -> nth_error (s_parts s) p = Some (Some e) -> e <> s_now s ->
+  sstep c s (SIExpire p) = Some (s', o) -> s_parts s' = s_parts s.
+Proof. exact stale_timer_keeps_new_lease. Qed.
+Print Assumptions C17_stale_timer_keeps_reacquired_partition.
+
+Theorem C17_own_timer_clears : forall c s p s' o,
+  nth_error (s_parts s) p = Some (Some (s_now s)) ->
+  sstep c s (SIExpire p) = Some (s', o) -> nth_error (s_parts s') p = Some None.
+Proof. exact own_timer_clears. Qed.
+Print Assumptions C17_own_timer_clears.
+
+
 Example C17_nonvacuous :
   exists s os, srun (mkSCfg V2 1 0 true) (sinit (mkSCfg V2 1 0 true) 0 4)
      [SAStart true; SILoopProvision; SAGiveMe 4; SILease 3; SILeaseRet (15 * sec); SASetShared 2; SILoopProvision;
